@@ -2,9 +2,11 @@ package rules
 
 import (
 	"go/ast"
+	"go/constant"
 	"go/token"
 	"go/types"
 	"sort"
+	"strconv"
 	"strings"
 
 	"golang.org/x/tools/go/ssa"
@@ -137,6 +139,9 @@ func runC09(p *eng.Prog, r *eng.Report, tier string) {
 	// C09.15 a value used although the call that produced it may have failed
 	nilReaderSinks(c, "C09.19")
 	serveLockWait(c, "C09.20")
+	// C09.21 addresses parsed from peer input keep their part boundaries inside the buffer
+	c11LocalLenIsEnforcedLen(c, "C09.21")
+	pageTurnClosesFirst(c, "C09.22")
 	nTol := valueUsedAfterError(c, "C09.15", c.allFns())
 	r.Note("C09.15: %d error-tolerant uses of a (value, error) result examined", nTol)
 	c06JoinCtx(c)
@@ -239,6 +244,26 @@ func c09IndexID(c *cx, rid string, f *eng.Fn, via string) {
 	f.WalkBody(func(n ast.Node) bool {
 		switch e := n.(type) {
 		case *ast.IndexExpr:
+			// (d) variable index into a fixed-size array
+			if n, isArr := arrayLen(info.TypeOf(e.X)); isArr {
+				if _, isConst := f.ConstInt(e.Index); isConst {
+					return true // checked by the compiler
+				}
+				// String methods written by stringer index their offset tables
+				// behind a range test of the generator's own making (partly through
+				// `i -= k`, which the fact engine does not follow): generated
+				// files are the generator's responsibility
+				if fileGenerated(f, e.Pos()) {
+					return true
+				}
+				pt, ok := g.Where(e)
+				if !ok || !g.Live(pt) {
+					return true
+				}
+				why := arrayIndexBounded(f, e, n, pt)
+				c.r.Check(rid, f, "array index "+f.Norm(e, &pt), "E-idx(d): a variable index into an array of N elements is bounded by its type or by dominating facts 0 <= i < N", e.Pos(), why == "", why+"; reached via "+via)
+				return true
+			}
 			// (b) constant index into a slice
 			if _, isSlice := info.TypeOf(e.X).Underlying().(*types.Slice); !isSlice {
 				return true
@@ -458,6 +483,141 @@ func shortCircuitLen(f *eng.Fn, e ast.Node, xs string, pt eng.Point) bool {
 			break
 		}
 		child = par
+	}
+	return false
+}
+
+func arrayLen(t types.Type) (int64, bool) {
+	if t == nil {
+		return 0, false
+	}
+	if p, ok := t.Underlying().(*types.Pointer); ok {
+		t = p.Elem()
+	}
+	if a, ok := t.Underlying().(*types.Array); ok {
+		return a.Len(), true
+	}
+	return 0, false
+}
+
+// constOperand evaluates an operand of a fact (a decimal literal or the
+// qualified name of an integer constant) in the context of f's package.
+func constOperand(f *eng.Fn, s string) (int64, bool) {
+	if k, err := strconv.ParseInt(s, 10, 64); err == nil {
+		return k, true
+	}
+	i := strings.LastIndex(s, ".")
+	if i < 0 {
+		return 0, false
+	}
+	path, name := s[:i], s[i+1:]
+	var scope *types.Scope
+	if f.Pkg.Types != nil && (strings.HasSuffix(f.Pkg.PkgPath, "/"+path) || f.Pkg.PkgPath == path || f.Pkg.Types.Name() == path) {
+		scope = f.Pkg.Types.Scope()
+	}
+	for ip, imp := range f.Pkg.Imports {
+		if ip == path && imp.Types != nil {
+			scope = imp.Types.Scope()
+		}
+	}
+	if scope == nil {
+		return 0, false
+	}
+	if k, ok := scope.Lookup(name).(*types.Const); ok {
+		if v, exact := constant.Int64Val(constant.ToInt(k.Val())); exact {
+			return v, true
+		}
+	}
+	return 0, false
+}
+
+// arrayIndexBounded returns "" if the index of e (an index into an array of n
+// elements) is within bounds on every path, otherwise the reason.
+func arrayIndexBounded(f *eng.Fn, e *ast.IndexExpr, n int64, pt eng.Point) string {
+	g := f.Graph()
+	info := f.Info()
+	idx := ast.Unparen(e.Index)
+	unsigned := false
+	if bt, ok := info.TypeOf(idx).Underlying().(*types.Basic); ok {
+		switch bt.Kind() {
+		case types.Uint8:
+			if n >= 256 {
+				return ""
+			}
+			unsigned = true
+		case types.Uint16:
+			if n >= 65536 {
+				return ""
+			}
+			unsigned = true
+		case types.Uint, types.Uint32, types.Uint64, types.Uintptr:
+			unsigned = true
+		}
+	}
+	// i & mask, i % n
+	if be, ok := idx.(*ast.BinaryExpr); ok {
+		if k, isK := f.ConstInt(be.Y); isK {
+			if be.Op == token.AND && k >= 0 && k < n {
+				return ""
+			}
+			if be.Op == token.REM && k > 0 && k <= n && unsigned {
+				return ""
+			}
+		}
+	}
+	I := f.Norm(idx, &pt)
+	if strings.HasPrefix(I, "rangekey(") {
+		return ""
+	}
+	// (x + k): bound x by n - k
+	if strings.HasPrefix(I, "(") && strings.HasSuffix(I, ")") {
+		if j := strings.LastIndex(I, " + "); j > 0 {
+			if k, ok := constOperand(f, I[j+3:len(I)-1]); ok && k >= 0 {
+				I = I[1:j]
+				n -= k
+			}
+		}
+	}
+	upper, lower := false, unsigned
+	for _, a := range g.FactsAt(pt) {
+		switch {
+		case strings.HasPrefix(a, "lt("+I+",") && strings.HasSuffix(a, ")"):
+			if k, ok := constOperand(f, a[len("lt("+I+","):len(a)-1]); ok && k <= n {
+				upper = true
+			}
+		case strings.HasPrefix(a, "!lt(") && strings.HasSuffix(a, ","+I+")"):
+			if k, ok := constOperand(f, a[len("!lt("):len(a)-len(","+I+")")]); ok && k <= n-1 {
+				upper = true
+			}
+		case strings.HasPrefix(a, "!lt("+I+",") && strings.HasSuffix(a, ")"):
+			if k, ok := constOperand(f, a[len("!lt("+I+","):len(a)-1]); ok && k >= 0 {
+				lower = true
+			}
+		case strings.HasPrefix(a, "lt(") && strings.HasSuffix(a, ","+I+")"):
+			if k, ok := constOperand(f, a[len("lt("):len(a)-len(","+I+")")]); ok && k >= -1 {
+				lower = true
+			}
+		case strings.HasPrefix(a, "eq("+I+",") && strings.HasSuffix(a, ")"):
+			if k, ok := constOperand(f, a[len("eq("+I+","):len(a)-1]); ok && k >= 0 && k < n {
+				upper, lower = true, true
+			}
+		}
+	}
+	switch {
+	case !upper:
+		return "no dominating fact bounds the index below " + strconv.FormatInt(n, 10) + " (index out of range for larger values)"
+	case !lower:
+		return "no dominating fact excludes a negative index"
+	}
+	return ""
+}
+
+// fileGenerated reports whether pos lies in a file marked "Code generated ... DO NOT EDIT.".
+func fileGenerated(f *eng.Fn, pos token.Pos) bool {
+	for _, file := range f.Pkg.Syntax {
+		if file.Pos() <= pos && pos <= file.End() {
+			return ast.IsGenerated(file)
+		}
 	}
 	return false
 }
